@@ -37,6 +37,7 @@ class Cfg:
         self.downto = True
         self.data_all = False       # user data also on netlist, libraries, ports, cables
         self.late = False           # edits of definitions after they were instanced
+        self.dense = False          # few leaves, most endpoints connected (nets cross boundaries)
         self.lib_monotone = False   # library index never decreases along the definition order
         self.twins = False          # same-named, same-shaped definitions in different libraries
         self.share = False          # bias children towards definitions that are already instanced
@@ -107,7 +108,7 @@ def recipes(draw, cfg=None):
     ndefs = draw(st.integers(1, cfg.max_defs))
     if ndefs < 3 and cfg.max_defs >= 3 and draw(st.integers(0, 3)) != 0:
         ndefs = draw(st.integers(3, cfg.max_defs))
-    nleaf = draw(st.integers(1, max(1, ndefs // 2)))
+    nleaf = 1 if cfg.dense else draw(st.integers(1, max(1, ndefs // 2)))
     libs = []
     used_l = set()
     for _ in range(nlibs):
@@ -186,7 +187,10 @@ def recipes(draw, cfg=None):
                         for b in range(p["w"]):
                             ends.append(["i", chi, pi, b])
                 for e in ends:
-                    s = draw(st.integers(-1, len(slots) - 1)) if draw(st.integers(0, 3)) else -1
+                    if cfg.dense:
+                        s = draw(st.integers(0, len(slots) - 1)) if draw(st.integers(0, 7)) else -1
+                    else:
+                        s = draw(st.integers(-1, len(slots) - 1)) if draw(st.integers(0, 3)) else -1
                     if s >= 0:
                         d["conns"].append([e, list(slots[s])])
         d["data"] = draw(_data(cfg))
